@@ -165,6 +165,47 @@ def fmt_seq(s):
     return "(" + ", ".join((n if k == "one" else ("*reversed(" + n + ")" if r else "*" + n)) for k, n, r in s) + ")" if s is not None else "?"
 
 
+def check_grouped_values(ctx, rule: str) -> None:
+    prog = ctx.prog
+    ctx.rule(rule, "GroupedRecord keeps its own bookkeeping in instance attributes (name, records, descriptors, flat_fields): attribute lookup on the group finds "
+                      "those before __getattr__ is asked, so a member field of the same name is shadowed. _asdict() and _replace() - what every flat writer and "
+                      "the composition functions use - therefore read each value from the owning member (fieldname_to_record[k]), not through getattr(self, k)")
+    gcls = prog.cls("flow.record.base.GroupedRecord")
+    ginit = prog.methods_of(gcls)["__init__"]
+    own_attrs = sorted({t.attr for st in walk_no_nested(ginit) if isinstance(st, ast.Assign) for t in st.targets
+                        if isinstance(t, ast.Attribute) and norm(t.value) == "self" and not t.attr.startswith("_")})
+    ctx.floor(rule, "public bookkeeping attributes of GroupedRecord", len(own_attrs), 2)
+    # plain attribute access cannot be repaired the same way: these names are the class's public API. A bookkeeping attribute whose name is a
+    # valid field name shadows a member field of that name (recorded as a known finding; it disappears when the attributes become private)
+    if rule == "R15.7":
+        ctx.check(not own_attrs, rule, "GroupedRecord:attribute-shadowing", f"the group's own attributes {own_attrs} are valid field names: `g.<name>` returns the group's "
+                  "attribute, not the member's field of that name", ginit, "bookkeeping attributes start with an underscore", key="R15.7:GroupedRecord:attribute-shadowing" if rule == "R15.7" else f"{rule}:GroupedRecord:attribute-shadowing")
+    for mname in ("_asdict", "_replace"):
+        gm = prog.methods_of(gcls).get(mname)
+        if gm is None:
+            continue
+        me7 = func_params(gm)[0]
+        shadowed = [c for c in calls_in(gm, nested=True) if call_name(c) == "getattr" and len(c.args) >= 2 and norm(c.args[0]) == me7 and not isinstance(c.args[1], ast.Constant)]
+        ctx.check(not shadowed, rule, f"GroupedRecord.{mname}:value-source", f"`{norm(shadowed[0]) if shadowed else ''}` reads field values through attribute lookup on the group: for a member field "
+                  f"named {own_attrs} it returns the group's own attribute (the group name, the member list) instead of the member's value", shadowed[0] if shadowed else gm,
+                  "getattr(self.fieldname_to_record[k], k)", key=f"{rule}:GroupedRecord.{mname}:reads-through-group-attributes")
+
+    # first member wins in the flat view as well: _asdict takes every value from the owner recorded in fieldname_to_record (filled first-come in
+    # __init__) - it does not merge the members' own dicts, where a later member would overwrite an earlier one
+    gad = prog.methods_of(gcls).get("_asdict")
+    if gad is not None:
+        merges = [c for c in calls_in(gad, nested=True) if isinstance(c.func, ast.Attribute) and c.func.attr in ("update", "_asdict") and norm(c.func.value) != func_params(gad)[0]]
+        owner_reads = [c for c in calls_in(gad, nested=True) if call_name(c) == "getattr" and c.args and "fieldname_to_record" in norm(expand_aliases_(c.args[0], gad))]
+        ctx.check(not merges, rule, "GroupedRecord._asdict:first-member-wins", f"_asdict builds the flat view by `{norm(merges[0])[:50] if merges else 'something other than owner lookups'}`: "
+                  "merging the members' dicts in order lets the LAST member's value (and metadata) win, the documented precedence is the first", merges[0] if merges else gad,
+                  "values come from fieldname_to_record[k]", key=f"{rule}:GroupedRecord._asdict:not-first-wins")
+
+
+def expand_aliases_(e, fn):
+    from ..core import expand_aliases, single_assign_aliases
+    return expand_aliases(e, single_assign_aliases(fn))
+
+
 def run(ctx):
     prog = ctx.prog
     base = prog.module("flow.record.base")
@@ -450,28 +491,7 @@ def run(ctx):
     ctx.check(len(in_loop) == 1 and not [n for n in ast.walk(loop) if isinstance(n, (ast.Break, ast.Continue, ast.Return))], "R15.5", "iter_timestamped_records:one-per-field",
               "not exactly one record is yielded per datetime field", loop, "one yield per iteration, no early exit")
 
-    # ------------------------------------------------------------------ R15.7 a grouped record's values come from the member that owns the field
-    ctx.rule("R15.7", "GroupedRecord keeps its own bookkeeping in instance attributes (name, records, descriptors, flat_fields): attribute lookup on the group finds "
-                      "those before __getattr__ is asked, so a member field of the same name is shadowed. _asdict() and _replace() - what every flat writer and "
-                      "the composition functions use - therefore read each value from the owning member (fieldname_to_record[k]), not through getattr(self, k)")
-    gcls = prog.cls("flow.record.base.GroupedRecord")
-    ginit = prog.methods_of(gcls)["__init__"]
-    own_attrs = sorted({t.attr for st in walk_no_nested(ginit) if isinstance(st, ast.Assign) for t in st.targets
-                        if isinstance(t, ast.Attribute) and norm(t.value) == "self" and not t.attr.startswith("_")})
-    ctx.floor("R15.7", "public bookkeeping attributes of GroupedRecord", len(own_attrs), 2)
-    # plain attribute access cannot be repaired the same way: these names are the class's public API. A bookkeeping attribute whose name is a
-    # valid field name shadows a member field of that name (recorded as a known finding; it disappears when the attributes become private)
-    ctx.check(not own_attrs, "R15.7", "GroupedRecord:attribute-shadowing", f"the group's own attributes {own_attrs} are valid field names: `g.<name>` returns the group's "
-              "attribute, not the member's field of that name", ginit, "bookkeeping attributes start with an underscore", key="R15.7:GroupedRecord:attribute-shadowing")
-    for mname in ("_asdict", "_replace"):
-        gm = prog.methods_of(gcls).get(mname)
-        if gm is None:
-            continue
-        me7 = func_params(gm)[0]
-        shadowed = [c for c in calls_in(gm, nested=True) if call_name(c) == "getattr" and len(c.args) >= 2 and norm(c.args[0]) == me7 and not isinstance(c.args[1], ast.Constant)]
-        ctx.check(not shadowed, "R15.7", f"GroupedRecord.{mname}:value-source", f"`{norm(shadowed[0]) if shadowed else ''}` reads field values through attribute lookup on the group: for a member field "
-                  f"named {own_attrs} it returns the group's own attribute (the group name, the member list) instead of the member's value", shadowed[0] if shadowed else gm,
-                  "getattr(self.fieldname_to_record[k], k)", key=f"R15.7:GroupedRecord.{mname}:reads-through-group-attributes")
+    check_grouped_values(ctx, "R15.7")
 
     # ------------------------------------------------------------------ R15.6 descriptors are compared by their definition
     ctx.rule("R15.6", "the merge and projection caches are keyed by RecordDescriptor objects: RecordDescriptor.__eq__ answers True only when the complete "
